@@ -188,7 +188,7 @@ class Target:
             ptext = open(os.path.join(VERIF, self.prelude)).read()
         except OSError:
             ptext = ''
-        norm = lambda ps: [re.sub(r'\s+', ' ', re.sub(r'\b\w+$', '', x.strip())).strip() for x in ps]
+        norm = lambda ps: [re.sub(r'\s+', ' ', re.sub(r'\bconst\b', '', re.sub(r'\b\w+$', '', x.strip()))).replace(' *', '*').strip() for x in ps]
         for f in present:
             for m in re.finditer(r'(?m)^(?:static[ \t]+)?(?:struct[ \t]+)?\w+[ \t\*]+' + re.escape(f.cname) + r'\s*\(([^;{()]*)\)\s*;', ptext):
                 if norm(m.group(1).split(',')) != norm(f.printer.params):
@@ -218,8 +218,12 @@ class Target:
         self.cfile = cfile
         # a callee under contract that the current source no longer calls has no symbol in the goto binary and DFCC
         # would abort on its --replace-call-with-contract: replace only callees that are called (recorded in the evidence)
+        # (a call may also sit in the prelude: stubs / contract-level lemma wrappers that call a contracted function; the
+        # prototype that carries the contract is itself followed by '(' so count occurrences beyond the declaration)
+        def called_in_prelude(g):
+            return len(re.findall(r'\b' + re.escape(g) + r'\s*\(', ptext)) >= 2
         self.replace_used = [g for g in self.replace if any(re.search(r'\b' + re.escape(g) + r'\s*\(', t) for t in texts + [harness])
-                             or any(g == f.cname for f in self.fns)]
+                             or any(g == f.cname for f in self.fns) or called_in_prelude(g)]
         info['contracts_not_called'] = [g for g in self.replace if g not in self.replace_used]
         self.info = info
         return cfile
